@@ -112,7 +112,7 @@ SuccessMeansCommittedOnce ==
 FailureMeansNeverApplied ==
   \A c \in DOMAIN cbs : \A k \in 1..Len(cbs[c]) :
      cbs[c][k][2] \in FailureCodes => ~\E p \in G : p[2] = c
-AtMostOnceApplied == \A p, q \in G : p[2] = q[2] => p[1] = q[1]
+AtMostOnceApplied == \A p, q \in G : (p[2] = q[2] /\ ~Repeatable(p[2])) => p[1] = q[1]
 
 (* C03 *)
 ElectionSafety == \A a, b \in elected : a[1] = b[1] => a[2] = b[2]
